@@ -325,3 +325,27 @@ def chunked(seq, n):
 
 def now():
     return time.time()
+
+
+def eval_sharded(imports, func, case_literals, shard=400, jobs=12, defs="", timeout=900):
+    """Evaluate `func c` for every Coq literal c (a list of strings) with vm_compute, in parallel shards.
+
+    Returns the parsed results in order."""
+    from concurrent.futures import ThreadPoolExecutor
+
+    shards = list(chunked(list(case_literals), shard))
+    if not shards:
+        return []
+
+    def one(sh):
+        term = "map (%s) %s" % (func, clist(sh))
+        return eval_terms(imports, [term], defs=defs, timeout=timeout)[0]
+
+    with ThreadPoolExecutor(max_workers=jobs) as ex:
+        parts = list(ex.map(one, shards))
+    out = []
+    for sh, p in zip(shards, parts):
+        if len(p) != len(sh):
+            raise CoqError("shard result length mismatch %d vs %d" % (len(p), len(sh)))
+        out.extend(p)
+    return out
